@@ -116,14 +116,18 @@ func (r *region[R]) shouldBeInControl(candidate *Gate[R]) bool {
 	return higherAuth || betterPos
 }
 
-// release a gate from the region. The region lock is released before calling
-// controller.remove to maintain consistent lock ordering (controller.mu before
-// region.RWMutex), preventing AB-BA deadlocks with OpenGate.
+// release a gate from the region. The controller lock is held for the whole release so
+// that a release which empties the region (and hands its resource back for disposal) is
+// atomic with respect to OpenGate: a concurrent open either joins the region before the
+// release (and inherits control) or finds the region gone and opens a new resource.
+// Lock order is controller.mu before region.RWMutex, the same as OpenGate.
 func (r *region[R]) release(g *Gate[R]) (res R, transfer Transfer) {
+	r.controller.mu.Lock()
+	defer r.controller.mu.Unlock()
 	r.Lock()
+	defer r.Unlock()
 	r.gates.Remove(g)
 	if r.curr != g {
-		r.Unlock()
 		return res, transfer
 	}
 	r.curr = nil
@@ -134,11 +138,9 @@ func (r *region[R]) release(g *Gate[R]) (res R, transfer Transfer) {
 			transfer.To = candidate.state()
 		}
 	}
-	shouldRemove := transfer.IsRelease()
 	res = r.resource
-	r.Unlock()
-	if shouldRemove {
-		r.controller.remove(r)
+	if transfer.IsRelease() {
+		r.controller.unsafeRemove(r)
 	}
 	return res, transfer
 }
